@@ -10,7 +10,7 @@ from vfw.core import Part, Violation, Reject, guarded
 
 LEVEL = 'exploration'
 RULE = (
-    'Triples of input files: rainfall on a uniform step (600-7200 s); water '
+    'Triples of input files: rainfall on a uniform step (90 s - 1 d, incl. 115 s and 229 s); water '
     'level on the same, a finer (step/2,/3,/4), a coarser (x2, x3) or an '
     'unaligned step (ET optionally with extra rows between grid instants), '
     'starting before or after the rain record, with 0-3 '
